@@ -59,7 +59,10 @@ type Inst struct {
 	// bookkeeping for the checker
 	FreshJoin          bool // no entry / no tokens in ring and no tokens file when this incarnation started
 	EntryAbsentAtStart bool
-	ReadyFirstAt       time.Time
+	// InheritedTokens: the complete token list found in the own ring entry when this incarnation started (nil when
+	// the entry was absent, incomplete, or a tokens file decides): "tokens inherited from the ring are kept"
+	InheritedTokens []uint32
+	ReadyFirstAt    time.Time
 }
 
 func (i *Inst) Svc() services.Service {
@@ -193,6 +196,9 @@ type Checker struct {
 	DemandFreshReRegistration bool
 	// ClaimVictims: identities whose tokens were handed over to another instance (token-count clause not applicable)
 	ClaimVictims map[string]bool
+	// CheckInherited: judge "tokens inherited from the ring are kept" (stores that replace values; on the merging
+	// gossip store a concurrent conflict resolution may legitimately strip a token)
+	CheckInherited bool
 	// Records, when set, replaces the recording store as the source of committed writes (e.g. a recording
 	// proxy in front of the gossip store)
 	Records []Record
@@ -454,6 +460,13 @@ func (c *Checker) Check() (findings []Finding, stats map[string]int) {
 					} else {
 						firstTokenVersion[k] = v.N
 					}
+				}
+			}
+			// (f') first ACTIVE version of an incarnation that found its complete token list in the ring
+			if ce.State == ring.ACTIVE && !activeSeen[v.Writer] && c.CheckInherited && len(w.InheritedTokens) > 0 && !c.ClaimVictims[own] {
+				stats["inherited_activations"]++
+				if fmt.Sprint(ce.Tokens) != fmt.Sprint(w.InheritedTokens) {
+					add("inherited-tokens-not-kept", fmt.Sprintf("%s found tokens %v in its ring entry when it started but became ACTIVE with %v", own, w.InheritedTokens, ce.Tokens), d(nil))
 				}
 			}
 			// (f) first ACTIVE version of a fresh join
